@@ -232,6 +232,11 @@ func initModels() {
 		}
 		return mkInt(t, rt)
 	}}
+	models["time.NewTimer"] = &model{writes: []string{"T|"}, apply: func(fx *FnCtx, st *State, cc *ssa.CallCommon, fnv *Val, args []*Val, rt types.Type) *Val {
+		t := st.alloc()
+		fx.timerSet(st, t, args[0].S, "true", "")
+		return mkInt(t, rt)
+	}}
 	models["(*time.Timer).Reset"] = &model{writes: []string{"T|"}, apply: func(fx *FnCtx, st *State, cc *ssa.CallCommon, fnv *Val, args []*Val, rt types.Type) *Val {
 		t := args[0].S
 		fx.oblige(st, fx.oname("safety", "nil-deref"), "safety", nil, tNot(tEq(t, "0")))
@@ -277,6 +282,41 @@ func initModels() {
 			}
 			return nil
 		}}
+	}
+	// sync/atomic functions on plain words: a load / store of the designated location (atomicity of a handler w.r.t.
+	// other goroutines is assumption A1; within one execution these are ordinary memory operations)
+	plain := func(op string) *model {
+		return &model{writes: []string{"F|", "M|"}, apply: func(fx *FnCtx, st *State, cc *ssa.CallCommon, fnv *Val, args []*Val, rt types.Type) *Val {
+			fx.oblige(st, fx.oname("safety", "nil-deref"), "safety", nil, tNot(tEq(args[0].S, "0")))
+			l := st.ptrLoc(cc.Args[0])
+			cur := st.loadLoc(l)
+			switch op {
+			case "Load":
+				return cur
+			case "Store":
+				st.storeLoc(l, args[1])
+				return nil
+			case "Swap":
+				st.storeLoc(l, args[1])
+				return cur
+			case "Add":
+				nv := mkInt(wrapOnce(tAdd(cur.S, args[1].S), l.T), l.T)
+				st.storeLoc(l, nv)
+				return nv
+			case "CAS":
+				c := tEq(cur.S, args[1].S)
+				st.storeLoc(l, mkInt(tIte(c, args[2].S, cur.S), l.T))
+				return mkBool(c)
+			}
+			return nil
+		}}
+	}
+	for _, w := range []string{"Int32", "Int64", "Uint32", "Uint64"} {
+		models["sync/atomic.Load"+w] = plain("Load")
+		models["sync/atomic.Store"+w] = plain("Store")
+		models["sync/atomic.Swap"+w] = plain("Swap")
+		models["sync/atomic.Add"+w] = plain("Add")
+		models["sync/atomic.CompareAndSwap"+w] = plain("CAS")
 	}
 	models["(*sync/atomic.Bool).Load"] = at("Load")
 	models["(*sync/atomic.Bool).Store"] = at("Store")
@@ -765,8 +805,23 @@ func (fx *FnCtx) rangeNext(st *State, x *ssa.Next) {
 
 // ---------- channels ----------
 
+// chanInv evaluates the declared invariant of channel ch for the element value v ("" when none is declared).
+func (fx *FnCtx) chanInv(st *State, ch *Val, v *Val) (string, *Clause) {
+	cl := fx.eng.CS.ChanInvs[strings.TrimPrefix(ch.Org, "field ")]
+	if cl == nil {
+		return "", nil
+	}
+	env := fx.fnEnv(st, st.curPoint)
+	env.useLocals = false
+	env.vars["v"] = v
+	return env.evalBool(cl.E), cl
+}
+
 func (fx *FnCtx) sendOp(st *State, x *ssa.Send) {
 	ch := st.val(x.Chan)
+	if g, cl := fx.chanInv(st, ch, st.val(x.X)); cl != nil {
+		fx.oblige(st, fx.oname("chan-inv", "send "+strings.TrimPrefix(ch.Org, "field ")), "chan-inv", cl, g)
+	}
 	fx.note("channel send: may block (see nonblocking obligations)")
 	cls := ch.Org
 	if fx.con != nil {
@@ -811,6 +866,23 @@ func (fx *FnCtx) selectOp(st *State, x *ssa.Select) {
 	tt := x.Type().(*types.Tuple)
 	for i := 2; i < tt.Len(); i++ {
 		tup.Fs = append(tup.Fs, st.freshVal(tt.At(i).Type(), "selrecv"))
+	}
+	// declared channel invariants: checked for the value of every send state, assumed for a received value
+	ri := 2
+	for i, s := range x.States {
+		ch := st.val(s.Chan)
+		if s.Dir == types.SendOnly {
+			if g, cl := fx.chanInv(st, ch, st.val(s.Send)); cl != nil {
+				fx.oblige(st, fx.oname("chan-inv", "send "+strings.TrimPrefix(ch.Org, "field ")), "chan-inv", cl, g)
+			}
+			continue
+		}
+		if ri < len(tup.Fs) {
+			if g, cl := fx.chanInv(st, ch, tup.Fs[ri]); cl != nil {
+				fx.sol.Assert(tImp(tEq(idx, fmt.Sprint(i)), g))
+			}
+			ri++
+		}
 	}
 	st.env[x] = tup
 }
